@@ -28,8 +28,11 @@ class _Baton(object):
         self._l = threading.Lock()
         self._l.acquire()
 
-    def acquire(self):
-        self._l.acquire()
+    def acquire(self, timeout=None):
+        if timeout is None:
+            self._l.acquire()
+            return True
+        return self._l.acquire(True, timeout)
 
     def release(self):
         try:
@@ -48,6 +51,15 @@ class Killed(BaseException):
 
 class VmpError(Exception):
     """Error of the machinery (never a verdict)."""
+
+
+class Spinning(Exception):
+    """A virtual process ran for STEP_TIMEOUT seconds without reaching a scheduling point: it busy-waits on
+    something outside the virtual layer (its own polling loop on the file system, a real sleep loop...).
+    Under the baton no other process can move meanwhile, so the wait can never end."""
+
+
+STEP_TIMEOUT = float(os.environ.get("VERIF_STEP_TIMEOUT", "120"))
 
 
 _tls = threading.local()
@@ -185,6 +197,14 @@ class Sched(object):
 
     # -- scheduler side -----------------------------------------------------------------
 
+    def _await(self):
+        """Wait until the process that was handed the baton yields at its next operation."""
+        if not self.wake.acquire(STEP_TIMEOUT):
+            who = self.last_moved.name if getattr(self, "last_moved", None) is not None else "?"
+            self.violations.append(("process-spins-outside-the-virtual-layer", "%s ran for %.0f s without reaching a scheduling point (a polling loop on something no other process can change while it runs)" % (who, STEP_TIMEOUT)))
+            self.spinning = True
+            raise Spinning(who)
+
     def _resume(self, p, result=None, exc=None):
         p.pending = None
         p.result = result
@@ -192,7 +212,7 @@ class Sched(object):
         p.local_cache = None
         self.last_moved = p
         p.sem.release()
-        self.wake.acquire()
+        self._await()
 
     def spawn(self, target, args=(), kwargs=None, name=None, group=None):
         pid = len(self.procs)
@@ -206,7 +226,7 @@ class Sched(object):
     def start_main(self, fn):
         p = self.spawn(fn, name="main", group="main")
         p.sem.release()
-        self.wake.acquire()
+        self._await()
         self._eager()
         return p
 
@@ -232,7 +252,7 @@ class Sched(object):
                     vp._proc = child
                     self.vprocs.append((p.pid, vp))
                     child.sem.release()
-                    self.wake.acquire()
+                    self._await()
                     p.nops += 1
                     self._resume(p)
                     progress = True
@@ -484,7 +504,7 @@ class Sched(object):
                 t.local_cache = None
                 if not t.thread_done:
                     t.sem.release()
-                    self.wake.acquire()
+                    self._await()
                 for st in self._proc_qstates(t):
                     st["buf"] = []
                     st["closed"] = True
@@ -581,8 +601,8 @@ class Sched(object):
             if not getattr(p, "thread_done", True):
                 p.sem.release()
         for p in self.procs:
-            p.thread.join(5.0)
-            if p.thread.is_alive():
+            p.thread.join(5.0 if not getattr(self, "spinning", False) else 0.2)
+            if p.thread.is_alive() and not getattr(self, "spinning", False):
                 raise VmpError("virtual process %s did not unwind" % p.name)
 
     def main(self):
